@@ -292,6 +292,7 @@ impl Property for C09 {
             let acked: Vec<&Done> = done.iter().filter(|x| x.ok && x.seq < s_next).collect();
             if acked.is_empty() { continue; }
             evals += 1;
+            rep.fault("crash_dropping_unsynced_bytes");
             // was there any unsynced byte while this image was current?
             let unsynced = vol.iter().any(|(s, v)| *s >= *s_k && *s < s_next && v.values().any(|(d, sy)| d.len() > *sy));
             if unsynced { rep.probe("crash_image_with_unsynced_bytes"); nontrivial = true; }
